@@ -6,6 +6,7 @@ import (
 	"reflect"
 	"sort"
 	"strings"
+	"sync/atomic"
 
 	"github.com/xelaj/mtproto"
 	"github.com/xelaj/mtproto/internal/encoding/tl"
@@ -90,7 +91,11 @@ type Scenario struct {
 	// one-shot goroutine that feeds the reply of a message nobody answers (msgs_ack) stays blocked when that
 	// message could not be written - a leak of the unchanged library that no statement speaks about.
 	WriteFaults int
-	Setup       func(w *World)
+	// OverTCP (free-running mode only): the client dials a real loopback socket through transport.NewTCP; a relay
+	// carries the bytes between that socket and the in-memory server, handing the server's bytes over in pieces
+	// of 64 bytes
+	OverTCP bool
+	Setup   func(w *World)
 	// AfterConnect runs in the main thread right after CreateConnection returned.
 	AfterConnect        func(w *World)
 	SaltAfterExchange   func(w *World)
@@ -119,6 +124,8 @@ type World struct {
 	Extra                     map[string]any
 	Auth                      *authsrv.Server
 	TicksFired                int
+	// RelayLast (OverTCP): unix nanoseconds of the last byte the relay moved in either direction
+	RelayLast *atomic.Int64
 }
 
 // Expected is what the statement promises for a call.
